@@ -62,7 +62,7 @@ func (d *driver) runSqrtCase(w emitter, k int, c *sqrtCase) {
 		for val := 0; val < 256; val++ {
 			exp := uint64(val) << (8 * uint(c.Blk))
 			if c.Others == "rnd" {
-				r := uint64(rnd.intn(1 << 31))<<1 | uint64(rnd.intn(2))
+				r := uint64(rnd.intn(1<<31))<<1 | uint64(rnd.intn(2))
 				mask := uint64(0xff) << (8 * uint(c.Blk))
 				exp = (r &^ mask) | exp
 			}
